@@ -245,3 +245,63 @@ func (m *Map) Range(f func(key, value interface{}) bool) {
 		}
 	}
 }
+
+// Pool mirrors sync.Pool: a LIFO free list shared by all threads; Get and Put are scheduling
+// points (the real pool may hand an item that was just Put to any other goroutine).
+type Pool struct {
+	New   func() interface{}
+	h     vrt.Handle
+	items []interface{}
+}
+
+func (p *Pool) Get() interface{} {
+	var x interface{}
+	if vrt.Bind(&p.h) {
+		p.items = nil
+	}
+	vrt.Update(&p.h, "Pool.Get", func(v uint64) uint64 {
+		if n := len(p.items); n > 0 {
+			x = p.items[n-1]
+			p.items = p.items[:n-1]
+		}
+		return uint64(len(p.items))
+	})
+	if x == nil && p.New != nil {
+		x = p.New()
+	}
+	return x
+}
+
+func (p *Pool) Put(x interface{}) {
+	if x == nil {
+		return
+	}
+	if vrt.Bind(&p.h) {
+		p.items = nil
+	}
+	vrt.Update(&p.h, "Pool.Put", func(v uint64) uint64 {
+		p.items = append(p.items, x)
+		return uint64(len(p.items))
+	})
+}
+
+// Cond mirrors sync.Cond. Signal wakes every waiter (an over-approximation of the wake-ups the
+// real Cond may deliver to callers that, as documented, re-check their condition in a loop).
+type Cond struct {
+	L Locker
+	h vrt.Handle
+}
+
+func NewCond(l Locker) *Cond { return &Cond{L: l} }
+
+func (c *Cond) Wait() {
+	vrt.Bind(&c.h)
+	var my uint64
+	vrt.Update(&c.h, "Cond.enter", func(v uint64) uint64 { my = v; return v })
+	c.L.Unlock()
+	vrt.Acquire(&c.h, "Cond.Wait", func(v uint64) (uint64, bool) { return v, v != my })
+	c.L.Lock()
+}
+
+func (c *Cond) Signal()    { vrt.Update(&c.h, "Cond.Signal", func(v uint64) uint64 { return v + 1 }) }
+func (c *Cond) Broadcast() { vrt.Update(&c.h, "Cond.Broadcast", func(v uint64) uint64 { return v + 1 }) }
